@@ -17,6 +17,15 @@ C={
  'C04':('exploration','structure-aware input mutation under crash, allocation and stability monitors',
         'Mutated encodings (every length field x hostile values, truncations, overwrites, random) are decoded in child processes with a panic monitor, an exact TotalAlloc meter against 256KiB+64B/byte and the decode-encode-decode stability equation; DecodeDir size field swept exhaustively.',
         'trusted: allocation bound constants are an instantiation of "small constant plus linear"; sampled except the 16-bit size sweep'),
+ 'C08':('exploration','lock-step reference-model monitor (fid-table model) with FS-call log, fid-table hook and quiescence hang detector',
+        'Random and systematically enumerated call sequences run on the real SFileSys over an instrumented file system; after every call the outcome, the exact FS calls and the whole fid table (via the verif hook) are compared with a sequential reference model; unreturned calls at quiescence are hangs.',
+        'trusted: harness/fsx model (DESIGN App. A) incl. its documented relations; instrumented FS deterministic; hook p9p.VerifFidTable'),
+ 'C13':('fault_enumeration','fault enumeration over FS-call indices and stop points with an online release monitor',
+        'For each generated sequence every FS-call index is failed in two flavours, pairs are sampled and Stop is issued after every prefix; handle-level monitors (unique ids, released/consumed state) detect double release, use after release and leaks; the model says which handle each release must hit.',
+        'trusted: fsx handles and model; exhaustive over (sequence, single fault, stop prefix), sampled over sequences and pairs'),
+ 'C20':('exploration','spy-session trace monitor plus server fid-table comparison',
+        'Operation sequences on CFileSys over a spy Session in front of the real SFileSys: every operation must issue exactly the corresponding call on the entry own fid with normalised names, completed walks must yield usable entries, and the server fid table (hook) must always equal the fids of live entries and be empty at the end.',
+        'trusted: spy accounting of entry->fid; reference path normaliser; hook'),
  'C16':('exploration','exhaustive bounded enumeration against an independent stepwise resolver',
         'All name lists of length 0-4 over an 11-symbol alphabet of special forms x 4 directories are enumerated at run time (exhaustive for that space) plus sampled longer lists; every helper result is compared with a 20-line reference resolver.',
         'trusted: reference resolver; directories canonical'),
